@@ -1,0 +1,124 @@
+//go:build verif
+
+// Contracts for the verifier in /verif (govc). Comment-only: with the build tag off this file is
+// not compiled, with it on it compiles to nothing.
+
+package compose
+
+// ---------------------------------------------------------------------------------------------------
+// dag.go — all-predecessor channels (C02, C05)
+// ---------------------------------------------------------------------------------------------------
+
+//@ spec wf(ch *dagChannel) bool = ch != nil && ch.ControlPredecessors != nil && ch.DataPredecessors != nil && ch.Values != nil
+//@ spec asDag(c channel) *dagChannel = unbox(c, "*dagChannel")
+//@ spec inList(k string, s []string) bool = exists(i int :: 0 <= i && i < len(s) && s[i] == k)
+
+//@ func dagChannelBuilder
+//@   props C02 C09
+//@   ensures[type] is(result, "*dagChannel") && fresh(asDag(result)) && wf(asDag(result))
+//@   ensures[fresh_maps] fresh(asDag(result).ControlPredecessors) && fresh(asDag(result).DataPredecessors) && fresh(asDag(result).Values)
+//@   ensures[distinct_maps] asDag(result).Values != asDag(result).ControlPredecessors
+//@   ensures[cp_dom] forall(p string :: in(p, asDag(result).ControlPredecessors) == inList(p, controlDependencies))
+//@   ensures[cp_waiting] forall(p string :: in(p, asDag(result).ControlPredecessors) ==> asDag(result).ControlPredecessors[p] == dependencyStateWaiting)
+//@   ensures[dp_dom] forall(p string :: in(p, asDag(result).DataPredecessors) == inList(p, dataDependencies))
+//@   ensures[dp_false] forall(p string :: !asDag(result).DataPredecessors[p])
+//@   ensures[empty] len(asDag(result).Values) == 0 && !asDag(result).Skipped
+//@   loop 1:
+//@     modifies map(deps)
+//@     invariant[dom] forall(p string :: in(p, deps) == exists(i int :: 0 <= i && i < $i && controlDependencies[i] == p))
+//@     invariant[waiting] forall(p string :: in(p, deps) ==> deps[p] == dependencyStateWaiting)
+//@   loop 2:
+//@     modifies map(indirect)
+//@     invariant[dom] forall(p string :: in(p, indirect) == exists(i int :: 0 <= i && i < $i && dataDependencies[i] == p))
+//@     invariant[false] forall(p string :: !indirect[p])
+
+//@ func (*dagChannel).load
+//@   props C05 C02
+//@   requires ch != nil && (is(c, "*dagChannel") ==> asDag(c) != nil)
+//@   modifies fields(ch)
+//@   ensures[view_equal] is(c, "*dagChannel") ==> result == nil && ch.ControlPredecessors == asDag(c).ControlPredecessors && ch.DataPredecessors == asDag(c).DataPredecessors && ch.Skipped == asDag(c).Skipped && ch.Values == asDag(c).Values
+//@   ensures[callbacks_kept] ch.zeroValue == old(ch.zeroValue) && ch.emptyStream == old(ch.emptyStream)
+//@   ensures[wrong_type] !is(c, "*dagChannel") ==> result != nil && ch.ControlPredecessors == old(ch.ControlPredecessors) && ch.DataPredecessors == old(ch.DataPredecessors) && ch.Skipped == old(ch.Skipped) && ch.Values == old(ch.Values)
+
+//@ func (*dagChannel).reportValues
+//@   props C02
+//@   requires wf(ch) && ins != ch.Values
+//@   modifies map(ch.DataPredecessors), map(ch.Values)
+//@   ensures[noerr] result == nil
+//@   ensures[skipped_noop] old(ch.Skipped) ==> forall(k string :: in(k, ch.Values) == old(in(k, ch.Values)) && ch.Values[k] == old(ch.Values[k]) && ch.DataPredecessors[k] == old(ch.DataPredecessors[k]))
+//@   ensures[dp_dom] forall(k string :: in(k, ch.DataPredecessors) == old(in(k, ch.DataPredecessors)))
+//@   ensures[dp] !old(ch.Skipped) ==> forall(k string :: ch.DataPredecessors[k] == (old(ch.DataPredecessors[k]) || (in(k, ins) && old(in(k, ch.DataPredecessors)))))
+//@   ensures[vals_dom] !old(ch.Skipped) ==> forall(k string :: in(k, ch.Values) == (old(in(k, ch.Values)) || (in(k, ins) && old(in(k, ch.DataPredecessors)))))
+//@   ensures[vals_new] !old(ch.Skipped) ==> forall(k string :: in(k, ins) && old(in(k, ch.DataPredecessors)) ==> ch.Values[k] == ins[k])
+//@   ensures[vals_keep] forall(k string :: !(in(k, ins) && old(in(k, ch.DataPredecessors))) ==> ch.Values[k] == old(ch.Values[k]))
+//@   loop 1:
+//@     modifies map(ch.DataPredecessors), map(ch.Values)
+//@     invariant[dp_dom] forall(k string :: in(k, ch.DataPredecessors) == old(in(k, ch.DataPredecessors)))
+//@     invariant[dp] forall(k string :: ch.DataPredecessors[k] == (old(ch.DataPredecessors[k]) || (in(k, $seen) && old(in(k, ch.DataPredecessors)))))
+//@     invariant[vals_dom] forall(k string :: in(k, ch.Values) == (old(in(k, ch.Values)) || (in(k, $seen) && old(in(k, ch.DataPredecessors)))))
+//@     invariant[vals_new] forall(k string :: in(k, $seen) && old(in(k, ch.DataPredecessors)) ==> ch.Values[k] == ins[k])
+//@     invariant[vals_keep] forall(k string :: !(in(k, $seen) && old(in(k, ch.DataPredecessors))) ==> ch.Values[k] == old(ch.Values[k]))
+
+//@ func (*dagChannel).reportDependencies
+//@   props C02
+//@   requires wf(ch)
+//@   modifies map(ch.ControlPredecessors)
+//@   ensures[skipped_noop] old(ch.Skipped) ==> forall(p string :: ch.ControlPredecessors[p] == old(ch.ControlPredecessors[p]))
+//@   ensures[dom] forall(p string :: in(p, ch.ControlPredecessors) == old(in(p, ch.ControlPredecessors)))
+//@   ensures[ready] !old(ch.Skipped) ==> forall(p string :: in(p, ch.ControlPredecessors) ==> ch.ControlPredecessors[p] == (inList(p, dependencies) ? dependencyStateReady : old(ch.ControlPredecessors[p])))
+//@   loop 1:
+//@     modifies map(ch.ControlPredecessors)
+//@     invariant[dom] forall(p string :: in(p, ch.ControlPredecessors) == old(in(p, ch.ControlPredecessors)))
+//@     invariant[ready] forall(p string :: in(p, ch.ControlPredecessors) ==> ch.ControlPredecessors[p] == (exists(i int :: 0 <= i && i < $i && dependencies[i] == p) ? dependencyStateReady : old(ch.ControlPredecessors[p])))
+
+//@ func (*dagChannel).reportSkip
+//@   props C02
+//@   requires wf(ch)
+//@   modifies map(ch.ControlPredecessors), map(ch.DataPredecessors), ch.Skipped
+//@   ensures[cp_dom] forall(p string :: in(p, ch.ControlPredecessors) == old(in(p, ch.ControlPredecessors)))
+//@   ensures[dp_dom] forall(p string :: in(p, ch.DataPredecessors) == old(in(p, ch.DataPredecessors)))
+//@   ensures[cp] forall(p string :: in(p, ch.ControlPredecessors) ==> ch.ControlPredecessors[p] == (inList(p, keys) ? dependencyStateSkipped : old(ch.ControlPredecessors[p])))
+//@   ensures[dp] forall(p string :: in(p, ch.DataPredecessors) ==> ch.DataPredecessors[p] == (old(ch.DataPredecessors[p]) || inList(p, keys)))
+//@   ensures[flag] ch.Skipped == forall(p string :: in(p, ch.ControlPredecessors) ==> ch.ControlPredecessors[p] == dependencyStateSkipped)
+//@   ensures[ret] result == ch.Skipped
+//@   loop 1:
+//@     modifies map(ch.ControlPredecessors), map(ch.DataPredecessors)
+//@     invariant[cp_dom] forall(p string :: in(p, ch.ControlPredecessors) == old(in(p, ch.ControlPredecessors)))
+//@     invariant[dp_dom] forall(p string :: in(p, ch.DataPredecessors) == old(in(p, ch.DataPredecessors)))
+//@     invariant[cp] forall(p string :: in(p, ch.ControlPredecessors) ==> ch.ControlPredecessors[p] == (exists(i int :: 0 <= i && i < $i && keys[i] == p) ? dependencyStateSkipped : old(ch.ControlPredecessors[p])))
+//@     invariant[dp] forall(p string :: in(p, ch.DataPredecessors) ==> ch.DataPredecessors[p] == (old(ch.DataPredecessors[p]) || exists(i int :: 0 <= i && i < $i && keys[i] == p)))
+//@   loop 2:
+//@     invariant[all] allSkipped && forall(p string :: in(p, $seen) ==> ch.ControlPredecessors[p] == dependencyStateSkipped)
+
+//@ func mergeValues
+//@   trusted merge of fan-in values is reflect / stream based (C08, C14); only "an error or one value" is assumed
+//@   pure
+
+//@ func (*dagChannel).get
+//@   props C02
+//@   requires wf(ch) && ch.zeroValue != nil && ch.emptyStream != nil
+//@   modifies map(ch.ControlPredecessors), map(ch.DataPredecessors), ch.Values
+//@   ensures[ready_iff] result2 == nil ==> (result1 <==> (!old(ch.Skipped) && forall(p string :: old(in(p, ch.ControlPredecessors)) ==> old(ch.ControlPredecessors[p]) != dependencyStateWaiting) && forall(d string :: old(in(d, ch.DataPredecessors)) ==> old(ch.DataPredecessors[d]))))
+//@   ensures[err_not_ready] result2 != nil ==> !result1
+//@   ensures[not_ready_unchanged] !result1 && result2 == nil ==> ch.Values == old(ch.Values) && forall(p string :: ch.ControlPredecessors[p] == old(ch.ControlPredecessors[p]) && ch.DataPredecessors[p] == old(ch.DataPredecessors[p]))
+//@   ensures[doms] forall(p string :: in(p, ch.ControlPredecessors) == old(in(p, ch.ControlPredecessors)) && in(p, ch.DataPredecessors) == old(in(p, ch.DataPredecessors)))
+//@   ensures[reset] result1 ==> fresh(ch.Values) && len(ch.Values) == 0 && forall(p string :: (in(p, ch.ControlPredecessors) ==> ch.ControlPredecessors[p] == dependencyStateWaiting) && !ch.DataPredecessors[p])
+//@   ensures[single] result1 && old(len(ch.Values)) == 1 ==> exists(k string :: old(in(k, ch.Values)) && result0 == old(ch.Values[k]))
+//@   ensures[skipped_flag] ch.Skipped == old(ch.Skipped)
+//@   loop 1:
+//@     invariant[nowait] forall(p string :: in(p, $seen) ==> ch.ControlPredecessors[p] != dependencyStateWaiting)
+//@   loop 2:
+//@     invariant[allready] forall(p string :: in(p, $seen) ==> ch.DataPredecessors[p])
+//@   loop 3:
+//@     modifies map(ch.ControlPredecessors)
+//@     invariant[dom] forall(p string :: in(p, ch.ControlPredecessors) == old(in(p, ch.ControlPredecessors)))
+//@     invariant[w] forall(p string :: in(p, $seen) ==> ch.ControlPredecessors[p] == dependencyStateWaiting)
+//@   loop 4:
+//@     modifies map(ch.DataPredecessors)
+//@     invariant[dom] forall(p string :: in(p, ch.DataPredecessors) == old(in(p, ch.DataPredecessors)))
+//@     invariant[f] forall(p string :: in(p, $seen) ==> !ch.DataPredecessors[p])
+//@   loop 5:
+//@     modifies fresh()
+//@     invariant[fresh] fresh(valueList)
+//@     invariant[len] len(valueList) == $n
+//@     invariant[from] forall(i int :: 0 <= i && i < len(valueList) ==> exists(k string :: in(k, $seen) && valueList[i] == old(ch.Values[k])))
